@@ -153,6 +153,11 @@ QStringList QXmppVCardManager::discoveryFeatures() const
 bool QXmppVCardManager::handleStanza(const QDomElement &element)
 {
     if (element.tagName() == u"iq" && QXmppVCardIq::isVCard(element)) {
+        // vCard requests are not answered here: leave them to the client's error reply
+        if (const auto type = element.attribute(u"type"_s); type == u"get" || type == u"set") {
+            return false;
+        }
+
         QXmppVCardIq vCardIq;
         vCardIq.parse(element);
 
